@@ -108,8 +108,8 @@ impl Property for C18 {
     }
 
     fn rule(&self) -> String {
-        "statements that push many items through every hash container on the output path: `*` over 8-12 columns, GROUP BY with up to 30 groups and 4-6 aggregates, joins with 6-10 partners per key and `*` over both tables, \
-         HAVING with hidden aggregates; definitions with 0-6 extra unrelated tables in different positions. Oracle: byte equality of the captured output (text and JSON) across 8 in-process repetitions (every HashMap gets a fresh \
+        "statements that push many items through every hash container on the output path: `*` over 8-12 columns, GROUP BY with up to 30 groups (a third of them: up to 120 groups over 150-300 lines) and 4-6 aggregates, optional LIMIT / DISTINCT, groups must also come out in ascending key order, joins with 6-10 partners per key and `*` over both tables, \
+         HAVING with hidden aggregates; definitions with 0-6 extra unrelated tables in different positions, among them tables whose name differs from a used one only in letter case. Oracle: byte equality of the captured output (text and JSON) across 8 in-process repetitions (every HashMap gets a fresh \
          RandomState), the variants with extra tables added / reordered, and (a slice of cases) 4 fresh child processes. Non-trivial: output with >= 6 rows or >= 6 columns; distinct by case."
             .to_string()
     }
@@ -122,7 +122,7 @@ impl Property for C18 {
 
     fn cases(&self, tier: Tier) -> u64 {
         match tier {
-            Tier::Quick => 6_000,
+            Tier::Quick => 12_000,
             Tier::Thorough => 150_000,
         }
     }
@@ -148,14 +148,25 @@ impl Property for C18 {
                 let n = 6 + t.draw(10);
                 lines = many_lines(t, &table, n, 5);
                 q.items.push((E::Star, None));
+                if t.chance(1, 4) {
+                    q.limit = Some(1 + t.draw(8) as u64);
+                }
                 if t.chance(1, 3) {
                     q.filter = Some(E::Is { not: true, l: Box::new(E::col("c0")), r: Box::new(E::Null) });
                 }
             }
             1 => {
                 // many groups, several aggregates, hidden aggregates in HAVING
-                let n = 20 + t.draw(40);
-                lines = many_lines(t, &table, n, 30);
+                // now and then many more groups than any small-slice special case (e.g. of a selection algorithm) covers
+                let big = t.chance(1, 3);
+                let n = if big { 150 + t.draw(150) } else { 20 + t.draw(40) };
+                lines = many_lines(t, &table, n, if big { 120 } else { 30 });
+                if t.chance(1, 3) {
+                    q.limit = Some(if big { 2 + t.draw(60) as u64 } else { 1 + t.draw(12) as u64 });
+                }
+                if t.chance(1, 6) {
+                    q.distinct = true;
+                }
                 let key = if t.chance(1, 2) { "c0" } else { "c1" };
                 q.group_by.push(E::col(key));
                 if t.chance(1, 3) {
@@ -196,12 +207,19 @@ impl Property for C18 {
             }
         }
         let nextra = t.draw(7);
-        let extra = (0..nextra)
+        let mut extra: Vec<DataTable> = (0..nextra)
             .map(|i| {
                 let n = 2 + t.draw(4);
                 wide_table(t, &format!("x{}", i), "e", n)
             })
             .collect();
+        // unrelated tables whose names differ from a used one only in letter case, or extend it
+        if t.chance(1, 3) {
+            let name = *t.pick(&["T", "U", "tt", "t2", "T_", "u_"]);
+            let n = 2 + t.draw(4);
+            let at = t.draw(extra.len() + 1);
+            extra.insert(at, wide_table(t, name, "e", n));
+        }
         Case { table, joined, extra, query: q, lines, joined_lines, processes: t.chance(1, 15) }
     }
 
@@ -250,6 +268,27 @@ impl Property for C18 {
         };
         for json in [true, false] {
             let base = run(&defs_variant(0), json)?;
+            if json && case.query.group_by.len() == 1 && base.result.is_ok() {
+                // groups in ascending key order (c0 is an INT, c1 a TEXT key; neither is ever NULL)
+                let mut previous: Option<crate::value::J> = None;
+                for (i, record) in base.records().iter().enumerate() {
+                    let key = crate::value::parse_json(record).ok().and_then(|j| match j { crate::value::J::Obj(items) => items.first().map(|x| x.1.clone()), _ => None });
+                    if let (Some(p), Some(k)) = (&previous, &key) {
+                        let ascending = match (p, k) {
+                            (crate::value::J::Num(a), crate::value::J::Num(b)) => a.parse::<i64>().ok() < b.parse::<i64>().ok(),
+                            (crate::value::J::Str(a), crate::value::J::Str(b)) => a.as_bytes() < b.as_bytes(),
+                            _ => true,
+                        };
+                        if !ascending {
+                            return Err(Failure::new(
+                                format!("group-by: keys-not-ascending{}", if case.query.limit.is_some() { "+limit" } else { "" }),
+                                format!("record {} has key {:?} after key {:?}\n  {}", i, k, p, context),
+                            ));
+                        }
+                    }
+                    previous = key;
+                }
+            }
             let first = base.lines.first().cloned().unwrap_or_default();
             let ncols = if json { first.matches("\":").count() } else { first.matches(": ").count() };
             if base.lines.len() >= 6 || ncols >= 6 {
@@ -273,7 +312,7 @@ impl Property for C18 {
                 let job = RunJob { defs: defs_variant(2), query: text.clone(), files: files.iter().map(|f| f.to_string_lossy().to_string()).collect(), json };
                 let job_path = ctx.file("c18-job.json");
                 std::fs::write(&job_path, serde_json::to_string(&job).unwrap()).expect("write job");
-                let exe = std::env::current_exe().expect("exe");
+                let exe = crate::run::child_exe();
                 for _ in 0..4 {
                     obs.inner += 1;
                     let output = std::process::Command::new(&exe).arg("--run-job").arg(&job_path).output().expect("spawn");
